@@ -15,27 +15,13 @@ theorem bind_total {α β} {x : Res α} {a : α} (f : α → Res β) (hx : x = .
     ∃ r, x.bind f = .ok r := by
   subst hx; exact hf a
 
-/-- `timestamp_nanos_opt` never panics, on any valid value (for leap-second representations on a second
-other than 59 the VALUE may be `None` although the count fits — C02's
-`nanos_opt_nonstrict_leap_witness` — but no step overflows) -/
+/-- `timestamp_nanos_opt` never panics, on any valid value, leap-second representations included (the
+count is formed in 128 bits and range-checked: absence by value) -/
 theorem nanos_opt_total (dt : NaiveDT) (h : NDTInv dt) : ∃ r, NaiveDT.timestamp_nanos_opt dt = .ok r := by
-  have hb := instSecs_range dt h
-  rw [ts_min_val, ts_max_val] at hb
   have hts := timestamp_spec dt h
-  obtain ⟨_, _, _, t3, t4⟩ := h
-  unfold NaiveDT.timestamp_nanos_opt NaiveDT.timestamp_subsec_nanos Time.nanosecond
+  unfold NaiveDT.timestamp_nanos_opt
   rw [hts]
-  simp only [Res.bind]
-  generalize instSecs dt = s at *
-  generalize dt.time.frac = f at *
-  by_cases hneg : s < 0
-  · rw [if_pos hneg, ckI64_ok (by omega) (by omega)]
-    simp only []
-    rw [ckI64_ok (by omega) (by omega)]
-    simp only []
-    cases optI64 ((s + 1) * 1000000000) <;> exact ⟨_, rfl⟩
-  · rw [if_neg hneg]
-    cases optI64 (s * 1000000000) <;> exact ⟨_, rfl⟩
+  exact ⟨_, rfl⟩
 
 /-- what a data format can hand to an integer visitor: an `i64`, a `u64`, or something else -/
 def WIntOk : WInt → Prop
